@@ -53,7 +53,7 @@ def headerOK (content gen : Bytes) : Bool :=
 def wfLine (t : Tables) (cb cu : Bytes) : String :=
   match t.b2uRows, t.u2bRows with
   | .ok rb, .ok ru =>
-    s!"wf b2u={rb.length}/{(b2uMap rb).size}/{wfB2U rb} u2b={ru.length}/{(u2bMap ru).size}/{wfU2B ru} ascii={t.ascii} hdr={headerOK cb Gen.Big5.b2uFirstLine}/{headerOK cu Gen.Big5.u2bFirstLine}"
+    s!"wf b2u={rb.length}/{(b2uMap rb).size}/{wfB2U rb} u2b={ru.length}/{(u2bMap ru).size}/{wfU2B ru} ascii={t.ascii} hdr={headerOK cb Gen.Big5.b2uFirstLine}/{headerOK cu Gen.Big5.u2bFirstLine} dropped={droppedRows cb}/{droppedRows cu}"
   | _, _ => "PANIC"
 
 /-- default tables, and the tables under the two ini variants (`none`: InitConfig fails, a file cannot be read). -/
